@@ -817,7 +817,24 @@ theorem sim_runOps (self : Nat) : ∀ (ops : List Op) (w : World) (j : JState), 
               · simp only [he, if_false] at h2 ⊢
                 exact ⟨h2.1, Frame.trans hF1 h2.2⟩
         | err => simp only [runOps, hs]; exact h1
-        | stop => simp only [runOps, hs]; exact h1
+        | stop =>
+          have hplain : StepOK w j (w1, evs, .stop) := h1
+          unfold StepOK at h1
+          simp only [reduceCtorEq, if_false] at h1
+          obtain ⟨hR1, hF1⟩ := h1
+          cases rest with
+          | nil => simp only [runOps, hs]; exact hplain
+          | cons op2 rest2 =>
+            cases op2 with
+            | err =>
+              simp only [runOps, hs]
+              have h2 := sim_err hR1
+              unfold StepOK
+              simp only [if_true, List.foldl_append, List.foldl_cons, List.foldl_nil, judge1_err]
+              obtain ⟨a, b, c, d, e⟩ := h2
+              refine ⟨a, b.trans hF1.bad, c.trans hF1.inRound, ?_, e⟩
+              rw [d, hF1.inRound, hF1.expect]
+            | _ => simp only [runOps, hs]; exact hplain
 
 theorem advance_fire {j : JState} {x : Entry} {rest : List Entry} (hp : j.pend = x :: rest)
     (hf : (!j.nofn.contains x.ob && decide (wrap16 (x.ticks - 1) < 1)) = true) :
